@@ -225,7 +225,7 @@ impl OutputFormat for XBin {
         } else {
             read_data_uncompressed(&mut result, &data[o..])?;
         }
-        crate::crop_loaded_file(&mut result);
+        // the header declares the size, nothing to crop
 
         Ok(result)
     }
